@@ -48,12 +48,13 @@ CLAIMS = {
             "bounded enumeration of the queue length (the loop runs over a concrete-length deque)."),
     "C17": ("proof", "Fallback decoders for unregistered ids return the payload unchanged, AT5 status decoders honour strides larger than the layout, every decoder's exception set is within Exception, _read_one_message lets only transport/decoder exceptions out and _read turns each into a reset without raising.",
             "as C05 / C07."),
+    "C18": ("proof", "search(): at most three requests, one sendto of the fixed request string to (broadcast|given host, 49004|49005) and one 0.5 s sleep per interval, stops after the first interval with an answer, closes the socket once, always returns - for all arrival patterns over the three intervals. Both datagram decoders and datagram_received over *all* byte strings through a complete structural case split on the comma structure (blocks and rest of symbolic length): a vendor-format datagram yields exactly its host, serial, id (and name with commas preserved), every other datagram (request echo, wrong part count, wrong id position) adds nothing; invalid text raises only UnicodeDecodeError. factory.discover: right class, model, TCP port 9004/9005, registry and identity per response.",
+            "asyncio datagram endpoint and the event loop's handling of an exception escaping a protocol callback are assumed (logged, transport stays open); set semantics collapse duplicates (frozen dataclass equality); udp.py is not imported by the package and not modelled."),
     "C19": ("proof", "The same contracts are discharged for both implementations: getters agree on the common attributes, setters accept/reject the same requests and the transmitted payloads have the same vendor meaning on each wire format (obligations are stated once and instantiated for AT4 and AT5); documented differences appear as generation parameters.",
             "agreement is by instantiating identical obligations, not by a product program; common domain = the generation parameter table in contracts/api_*.py."),
 }
 
 NOT_YET = {
-    "C18": "discovery (search loop, datagram decoders over byte strings, factory) is not yet under contract in this commit",
 }
 
 
